@@ -39,18 +39,21 @@ def int_modes(quick):
           Mode("single", None, "twice", "int"),
           Mode("multi", None, "upper", "mixed"),
           Mode("multi", False, "reverse", "float"),
-          Mode("long", False, "mixed", "int")]
+          Mode("shapes", False, "mixed", "int"),
+          Mode("digit", None, "lower", "float")]
     if not quick:
         ms += [Mode("single", False, "upper", "float"), Mode("long", None, "twice", "mixed"),
+               Mode("long", False, "mixed", "int"), Mode("digit", False, "upper", "mixed"),
                Mode("single", None, "reverse", "mixed"), Mode("multi", False, "twice", "int")]
     return ms
 
 
 def cx_modes(quick):
     ms = [Mode("single", None, "lower", "float"), Mode("multi", None, "upper", "float"),
-          Mode("multi", False, "reverse", "float")]
+          Mode("digit", False, "reverse", "float")]
     if not quick:
-        ms += [Mode("single", None, "twice", "complex"), Mode("long", False, "mixed", "complex")]
+        ms += [Mode("single", None, "twice", "complex"), Mode("long", False, "mixed", "complex"),
+               Mode("multi", False, "reverse", "float"), Mode("shapes", None, "lower", "float")]
     return ms
 
 
@@ -173,6 +176,10 @@ def part_base(row, mode, cx=False):
             if got != "".join(finv):
                 raise Bad("formal_inverse", "formal_inverse(%r) = %r, specified %r" % (s, got, "".join(finv)))
             n += 2
+    # the group generators are exactly the assigned lower-case names
+    lows = sorted(mode.name(l) for l in gens if l.islower())
+    if sorted(rep.asym_gens()) != lows:
+        raise Bad("asym_gens", "asym_gens() = %r, assigned generators %r" % (sorted(rep.asym_gens()), lows))
     # the dictionary is not changed by evaluation
     need(rc.dict_check(rep, gens, mode), "after_evaluation:")
     return n
@@ -306,6 +313,18 @@ def part_wrap(row, mode):
                             raise Bad("wrapped.product", "rep[%r] @ rep[%r] = %r, specified image of the concatenation %r"
                                       % (wm.word(u), wm.word(v), rc.show(got), rc.show(valmap[u + v])))
                         n += 1
+                if name.endswith("(rep)"):
+                    # the wrapped copy is a snapshot: assigning on either side leaves the other alone
+                    lows = sorted(l for l in gens if l.islower())
+                    g0, g1 = lows[0], lows[-1]
+                    wrep[wm.name(g0)] = tcls(np.array(gens[g1.upper()], dtype=float), column_vectors=True)
+                    need(rc.dict_check(plain_rep, gens, mode), "original_changed_by_assignment_to_wrapped_copy:")
+                    fresh = cls(plain_rep)
+                    plain_rep[mode.name(g1)] = mode.cast(gens[g0.upper()])
+                    need(rc.dict_check(fresh, gens, derived_mode(mode, fresh), "wrapped.generators"),
+                         "wrapped_copy_changed_by_assignment_to_original:")
+                    plain_rep[mode.name(g1)] = mode.cast(gens[g1])
+                    wrep = cls(plain_rep)
                 # composite object for a list of words
                 ws = [wm.word(w) for w, _ in vals]
                 arr = rc.plain(wrep.elements(ws))
@@ -486,9 +505,9 @@ def hkey(k):
 
 
 def hist_modes(quick):
-    ms = [Mode("single", None, "lower", "float"), Mode("multi", None, "lower", "mixed"), Mode("multi", False, "lower", "int")]
+    ms = [Mode("single", None, "lower", "float"), Mode("multi", None, "lower", "mixed"), Mode("digit", False, "lower", "int")]
     if not quick:
-        ms.append(Mode("long", None, "lower", "int"))
+        ms += [Mode("shapes", None, "lower", "float")]
     return ms
 
 
@@ -642,7 +661,8 @@ def run(run, replay=None):
         "words exhaustively to length 4 (n<=3) / 3 (n=4,5) for the base laws, 2..4 for derived kinds, seeded random longer words",
         "differential / Fox helpers: single-character generator names only (utils.words operates on strings of one-letter generators); "
         "the differential of the empty word is outside the library's domain",
-        "a word of a representation with multi-character names is a list of names or a '*'-joined string",
+        "a word of a representation with multi-character names is a list of names or a '*'-joined string; "
+        "name shapes: single letters, s0, word1, digit-first (1x), underscore-first (_s), letter inside (0t0), x_1, punctuation (-.q)",
         "wrapped (projective / hyperbolic) images compared up to one non-zero scalar",
     ]
     from concurrent.futures import ThreadPoolExecutor
